@@ -379,7 +379,23 @@ def fam_aba(rng):
     return prog_with_setup(rng, th, strategy=rng.choice(["default", "default", "nofast"]), reuse="lifo", pnull=0.0)
 
 
+def fam_help2w(rng):
+    """a fallback reader doing several loads while two or three writers replace the value (helping retries)"""
+    t = 1
+    ops = []
+    for i in range(rng.randrange(2, 5)):
+        g = t * R + i
+        ops += [{"op": "load", "c": 0, "g": g}, {"op": "deref_g", "g": g}]
+        if rng.random() < 0.6:
+            ops.append({"op": "drop_g", "g": g})
+    th = [ops]
+    for t in range(2, 2 + rng.choice([2, 2, 3])):
+        th.append([{"op": "store", "c": 0, "v": new()} for _ in range(rng.randrange(1, 3))])
+    return prog_with_setup(rng, th, strategy="nofast", reuse=rng.choice(["never", "lifo"]), pnull=0.0)
+
+
 FAMILIES = {
+    "help2w": fam_help2w,
     "aba": fam_aba,
     "panic_help": fam_panic_help,
     "rw": fam_rw2,
@@ -430,6 +446,62 @@ def directed(start_id=0, seed=0, tier="quick"):
                         j = json.loads(line)
                         j["fam"] = "directed:" + f[:-7]
                         jobs.append(j)
+    for i, j in enumerate(jobs):
+        j["id"] = start_id + i
+    return jobs
+
+
+def sandwich(tier="quick", start_id=0):
+    """Systematic two-thread exploration: A runs k1 steps, B runs k2 steps, A completes, B completes (and the
+    symmetric order): every schedule in which each thread is preempted at most once."""
+    def prog(a, b, strategy, reuse="lifo"):
+        return {"threads": [[{"op": "new", "c": 0, "v": new()}],
+                            [{"op": "wait", "t": 0}] + a, [{"op": "wait", "t": 0}] + b],
+                "strategy": strategy, "reuse": reuse}
+    ld = [{"op": "load", "c": 0, "g": 16}, {"op": "deref_g", "g": 16}, {"op": "drop_g", "g": 16}]
+    lf = [{"op": "load_full", "c": 0, "h": 16}, {"op": "deref_h", "h": 16}, {"op": "drop_h", "h": 16}]
+    st = [{"op": "store", "c": 0, "v": new()}]
+    sw = [{"op": "swap", "c": 0, "v": new(), "h": 32}, {"op": "deref_h", "h": 32}]
+    rcu = [{"op": "rcu", "c": 0, "h": 33}, {"op": "deref_h", "h": 33}]
+    cas = [{"op": "load_full", "c": 0, "h": 34}, {"op": "cas", "c": 0, "cur": {"h": 34}, "v": new(), "g": 35}, {"op": "deref_g", "g": 35}]
+    warm = [{"op": "load", "c": 0, "g": 60}, {"op": "drop_g", "g": 60}]   # claim the node first: shorter, C08-relevant
+    warm2 = [{"op": "load", "c": 0, "g": 61}, {"op": "drop_g", "g": 61}]
+    pairs_q = [("ld/st/nofast", warm + ld, warm2 + st, "nofast", 26, 44), ("ld/st", warm + ld, warm2 + st, "default", 24, 44),
+               ("rcu/st", warm + rcu, warm2 + st, "default", 40, 44)]
+    pairs_t = pairs_q + [("lf/sw/nofast", warm + lf, warm2 + sw, "nofast", 30, 46), ("lf/sw", warm + lf, warm2 + sw, "default", 28, 46),
+                         ("ld/rcu/nofast", warm + ld, warm2 + rcu, "nofast", 26, 70), ("rcu/rcu", warm + rcu, warm2 + [{"op": "rcu", "c": 0, "h": 43}, {"op": "deref_h", "h": 43}], "default", 60, 60),
+                         ("cas/st/nofast", warm + cas, warm2 + st, "nofast", 60, 44), ("st/st/nofast", warm + st, warm2 + st, "nofast", 44, 44),
+                         ("cold ld/st/nofast", ld, st, "nofast", 36, 60), ("ld2/st/nofast", warm + ld + ld, warm2 + st + st, "nofast", 40, 80)]
+    # A-B-A on the stored pointer while a compare_and_swap / rcu is in flight (the same value is stored back)
+    aba = warm2 + [{"op": "load_full", "c": 0, "h": 44}, {"op": "store", "c": 0, "v": new()}, {"op": "store", "c": 0, "v": {"h": 44}}]
+    pairs_q += [("cas/aba", warm + cas, aba, "default", 40, 2), ("rcu/aba", warm + rcu, aba, "default", 40, 2)]
+    pairs_t += [("cas/aba", warm + cas, aba, "default", 60, 120), ("rcu/aba", warm + rcu, aba, "default", 60, 120),
+                ("cas/aba/nofast", warm + cas, aba, "nofast", 60, 120)]
+    jobs = []
+    # three context switches: A k1 | B k2 | A k3 | B completes | A completes
+    tri = [("ld/st/nofast", warm + ld, warm2 + st, "nofast", 26, 44, 12, 14), ("ld/st", warm + ld, warm2 + st, "default", 24, 44, 12, 14),
+           ("cas/aba", warm + cas, aba, "default", 44, 70, 18, 18), ("rcu/aba", warm + rcu, aba, "default", 40, 70, 12, 18)]
+    for name, a, b, strat, ka, kb, la, lb in tri:
+        p = prog(a, b, strat)
+        for k1 in range(la, ka):
+            for k2 in range(lb, kb):
+                for k3 in (range(1, 4) if tier == "quick" else range(1, 9)):
+                    jobs.append({"fam": "sandwich3:" + name, "prog": p,
+                                 "sched": {"kind": "segs", "segs": [[1, k1], [2, k2], [1, k3], [2, 9999], [1, 9999]]}})
+    for name, a, b, strat, ka, kb in (pairs_q if tier == "quick" else pairs_t):
+        p = prog(a, b, strat)
+        lo_a, lo_b = (8, 8) if a[:2] == warm else (0, 0)
+        for k1 in range(lo_a, ka):
+            for k2 in range(1, kb if kb > 2 else 1):
+                jobs.append({"fam": "sandwich:" + name, "prog": p, "sched": {"kind": "segs", "segs": [[1, k1], [2, k2], [1, 9999], [2, 9999]]}})
+        if kb <= 2:
+            # B only ever runs to completion: A k1 | B all | A rest
+            for k1 in range(lo_a, ka):
+                jobs.append({"fam": "sandwich:" + name, "prog": p, "sched": {"kind": "segs", "segs": [[1, k1], [2, 9999], [1, 9999]]}})
+            continue
+        for k2 in range(lo_b, kb):
+            for k1 in range(1, ka):
+                jobs.append({"fam": "sandwich:" + name, "prog": p, "sched": {"kind": "segs", "segs": [[2, k2], [1, k1], [2, 9999], [1, 9999]]}})
     for i, j in enumerate(jobs):
         j["id"] = start_id + i
     return jobs
